@@ -86,7 +86,14 @@ def interval_root(state, data, dim, eps, delta=1e-12):
         else:
             # the memoised recursion is keyed order-insensitively: enclose every child order
             best_l = best_u = None
-            orders = list(itertools.permutations(range(len(rs))))  # at most 6 children in the enumerated forests
+            if len(rs) <= 6:
+                orders = list(itertools.permutations(range(len(rs))))
+            else:
+                # too many orders to enclose them all: a few representative ones; where they disagree (only possible
+                # when a floor bites at an intermediate convolution) the enclosure is opened up completely below
+                k = len(rs)
+                orders = [tuple(range(k)), tuple(reversed(range(k))), tuple(list(range(1, k)) + [0]), tuple([k - 1] + list(range(k - 1))),
+                          tuple(list(range(0, k, 2)) + list(range(1, k, 2)))]
             for od in orders:
                 dl, du = interval_conv(rs[od[0]][0], rs[od[0]][1], rs[od[1]][0], rs[od[1]][1], eps, delta)
                 for j in od[2:]:
@@ -94,6 +101,10 @@ def interval_root(state, data, dim, eps, delta=1e-12):
                 best_l = dl if best_l is None else np.minimum(best_l, dl)
                 best_u = du if best_u is None else np.maximum(best_u, du)
             dl, du = best_l, best_u
+            if len(rs) > 6:
+                loose = (du - dl) > 1e-10
+                dl = np.where(loose, -np.inf, dl)
+                du = np.where(loose, np.inf, du)
         return v + cum_log(dl), v + cum_log(du)
 
     return R(None)
@@ -195,8 +206,24 @@ def case(item):
     return res
 
 
+def large_forests():
+    """A few large shapes (chains, stars, caterpillars, several top-level clones) - behaviour that depends on size or depth."""
+    shapes = []
+    for K in (8, 12):
+        shapes.append(tuple([-1] + list(range(K - 1))))                    # chain
+        shapes.append(tuple([-1] + [0] * (K - 1)))                           # star under one clone
+        shapes.append(tuple([-1] * K))                                       # K top-level clones
+        shapes.append(tuple([-1] + [max(0, i - 2) for i in range(1, K)]))    # caterpillar
+        shapes.append(tuple([-1, -1] + [i % 2 for i in range(K - 2)]))       # two bushy roots
+    return shapes
+
+
 def items(tier, seed):
     out = []
+    for par in large_forests():
+        for G in ((11,) if tier == "quick" else (11, 101)):
+            for kind in ("generic", "peaked", "dup") if tier == "quick" else ("generic", "peaked", "dup", "extreme", "flat"):
+                out.append((par, G, 2 if kind == "generic" else 1, kind, seed))
     Ks = (1, 2, 3, 4) if tier == "quick" else (1, 2, 3, 4, 5, 6)
     for K in Ks:
         for par in oracle.forests(K):
